@@ -208,6 +208,25 @@ func runStop(c *StopCase) *StopObs {
 		at = attempt{l: l, pacing: c.Pacing}
 	case "cancel_out":
 		at = attempt{l: l, pacing: c.Pacing}
+	case "cancel_log":
+		var n int32
+		logHook.Store(func(reader bool) {
+			if !reader && atomic.AddInt32(&n, 1) == int32(f.At) {
+				doCancel()
+			}
+		})
+		cleanup = func() { logHook.Store(func(bool) {}) }
+		at = attempt{l: l, pacing: c.Pacing}
+	case "handler_err_cancel":
+		nn := 0
+		at = attempt{l: l, pacing: c.Pacing, handler: func(tx *gobinlog.Transaction, st *attemptState) error {
+			nn++
+			if nn == f.At {
+				doCancel()
+				return errInjected
+			}
+			return nil
+		}}
 	default:
 		at, cleanup = faultAttempt(ss, l, spec)
 		if at.ctx != nil { // cancel_in builds its own context: rebuild on ours
